@@ -41,6 +41,8 @@ def build(tier, seed):
     tasks.append(Task(f"{PROP}.S.casefold", PROP, "keyword tests on captured text", lambda: casefold.obligations(PROP, "ford.sourceform", _replay)))
     tasks.append(Task(f"{PROP}.S.casefold.names", PROP, "comparisons of entity names", lambda: casefold.name_obligations(PROP, replay=_replay)))
     tasks.append(Task(f"{PROP}.S.casefold.attribs", PROP, "attribute membership tests", lambda: casefold.attribute_obligations(PROP, replay=_replay)))
+    tasks.append(Task(f"{PROP}.S.lower", PROP, "FortranContainer.__init__", lambda: __import__("contracts.plumbing", fromlist=["x"]).lower_after_masking(PROP, lambda: __import__("bounded.c02", fromlist=["x"]).parser_literal_cases())))
+    tasks.append(Task(f"{PROP}.S.include", PROP, "FortranReader.include", lambda: __import__("contracts.readerblocks", fromlist=["x"]).include_forwards_configuration(PROP, replay=lambda: __import__("bounded.c14", fromlist=["x"]).included_fixed_form())))
     tasks.append(Task(f"{PROP}.S.casefold.flow", PROP, "keyword tests on local names", lambda: casefold.flow_obligations(PROP, replay=_replay)))
     tasks.append(Task(f"{PROP}.S.casefold.prefix", PROP, "keyword prefix tests", lambda: casefold.prefix_obligations(PROP, replay=_replay)))
     tasks.append(Task(f"{PROP}.S.operands", PROP, "operand list splitting", lambda: operands.obligations(PROP, _replay)))
